@@ -458,3 +458,160 @@ def make_block_contracts(cls):
 
 for _c in KNOT_FIELDS:
     make_block_contracts(_c)
+
+
+# ------------------------------------------------------------------------------------------------ assembling the spline: updateSplineInternal, update, constructors (C01)
+BC_MEMBER = {'CubicSplineND': 'boundary_velocities_', 'QuinticSplineND': 'boundary_', 'SepticSplineND': 'boundary_'}
+SOLVE = {'CubicSplineND': 'solveSpline', 'QuinticSplineND': 'solveQuintic', 'SepticSplineND': 'solveSepticSpline'}
+TRAJ_STATE = ('breakpoints_', 'coefficients_', 'derivative_coeffs_', 'derivative_factor_table_', 'derivative_factor_table_ready_',
+              'derivative_coeffs_ready_', 'num_segments_', 'num_coeffs_', 'is_initialized_')
+
+
+def spline_state(S, cls):
+    names = ['num_segments_', 'cumulative_times_', 'time_powers_', 'point_diffs_', 'coeffs_', 'is_initialized_', 'trajectory_']
+    if cls == 'CubicSplineND':
+        names += ['internal_derivatives_', 'cached_c_prime_', 'cached_inv_denoms_']
+    else:
+        names += KNOT_FIELDS[cls] + BLOCK_CACHES
+    return [S.v(x) for x in names]
+
+
+def published(S, cls):
+    """what the spline publishes after (re)building: knot times, coefficients, trajectory = (knot times, coefficients)"""
+    nc = nc_of_cls(cls)
+    s = ORDER_OF[cls]
+    D = S.cfg['DIM']
+    n = S.num_segments_
+    seg = S.v('time_segments_')
+    cum = S.v('cumulative_times_')
+    C = S.v('coeffs_')
+    T = S.v('trajectory_')
+    P = S.v('spatial_points_')
+    bc = S.v(BC_MEMBER[cls])
+    out = []
+    out.append(('segment_count', n.eq(seg.size()) & S.is_initialized_))
+    out.append(('knot_times_start', cum.size().eq(n + 1) & cum.at(0).eq(S.start_time_)))
+    out.append(('knot_times_advance_by_durations', S.forall(0, n, lambda i: cum.at(i + 1).eq(cum.at(i) + seg.at(i)))))
+    out.append(('trajectory_initialised', T.fields['is_initialized_'].rd() & T.fields['num_segments_'].rd().eq(n) & T.fields['num_coeffs_'].rd().eq(nc)))
+    out.append(('trajectory_fresh_caches', mk_not(T.fields['derivative_coeffs_ready_'].rd()) & mk_not(T.fields['derivative_factor_table_ready_'].rd())))
+    for j, p in enumerate(same_contents_vec(S, T.fields['breakpoints_'], cum)):
+        out.append(('trajectory_breakpoints_are_knot_times_%d' % j, p))
+    for j, p in enumerate(same_contents_mat(S, T.fields['coefficients_'], C, D)):
+        out.append(('trajectory_coefficients_are_spline_coefficients_%d' % j, p))
+    hfun = lambda i: seg.at(i)
+    for d in dims(S):
+        out.append(('interpolates_left_end_%d' % d, S.forall(0, n, lambda i, d=d: C.at(i * nc, d).eq(P.at(i, d)))))
+        out.append(('interpolates_right_end_%d' % d, S.forall(0, n, lambda i, d=d: der(C, nc, i, 0, hfun(i), d).eq(P.at(i + 1, d)))))
+        for k in range(1, s):
+            out.append(('start_%s_%d' % (BC_FIELDS[k - 1], d), der(C, nc, 0, k, 0, d).eq(bc.fields['start_' + BC_FIELDS[k - 1]].at(d, 0))))
+            out.append(('end_%s_%d' % (BC_FIELDS[k - 1], d), der(C, nc, n - 1, k, hfun(n - 1), d).eq(bc.fields['end_' + BC_FIELDS[k - 1]].at(d, 0))))
+        for k in range(1, s):
+            out.append(('continuous_derivative_%d_%d' % (k, d), S.forall(1, n, lambda m, k=k, d=d: der(C, nc, m, k, 0, d).eq(der(C, nc, m - 1, k, hfun(m - 1), d)))))
+    return out
+
+
+def make_assembly_contracts(cls):
+    nc = nc_of_cls(cls)
+    s = ORDER_OF[cls]
+
+    class InitializePPoly(Contract):
+        key = cls + '.initializePPoly'
+
+        def spec(self, S):
+            D = S.cfg['DIM']
+            n = S.num_segments_
+            cum = S.v('cumulative_times_')
+            C = S.v('coeffs_')
+            T = S.v('trajectory_')
+            S.requires((n >= 1) & (n <= NMAX) & cum.size().eq(n + 1) & C.R.eq(nc * n), 'sizes')
+            S.assigns(T)
+            S.ensures(T.fields['is_initialized_'].rd() & T.fields['num_segments_'].rd().eq(n) & T.fields['num_coeffs_'].rd().eq(nc), 'trajectory_initialised')
+            S.ensures(mk_not(T.fields['derivative_coeffs_ready_'].rd()) & mk_not(T.fields['derivative_factor_table_ready_'].rd()), 'trajectory_fresh_caches')
+            for j, p in enumerate(same_contents_vec(S, T.fields['breakpoints_'], cum)):
+                S.ensures(p, 'trajectory_breakpoints_are_knot_times_%d' % j)
+            for j, p in enumerate(same_contents_mat(S, T.fields['coefficients_'], C, D)):
+                S.ensures(p, 'trajectory_coefficients_are_spline_coefficients_%d' % j)
+
+    class UpdateSplineInternal(Contract):
+        key = cls + '.updateSplineInternal'
+
+        def spec(self, S):
+            seg = S.v('time_segments_')
+            P = S.v('spatial_points_')
+            S.requires((seg.size() >= 1) & (seg.size() <= NMAX) & P.R.eq(seg.size() + 1), 'sizes')
+            S.requires(S.forall(0, seg.size(), lambda i: seg.at(i) > 0), 'positive_durations')
+            S.assume_nonzero_divisors_in('Inverse2x2', 'Inverse3x3')
+            S.terms(0, seg.size() - 1, seg.size(), S.sk(0) - 1, S.sk(0) + 1)
+            S.assigns(*spline_state(S, cls))
+            for label, p in published(S, cls):
+                S.ensures(p, label)
+
+    InitializePPoly.__name__ = cls + 'InitializePPoly'
+    UpdateSplineInternal.__name__ = cls + 'UpdateSplineInternal'
+    register(InitializePPoly)
+    register(UpdateSplineInternal)
+
+    def inputs_stored(S, by_points):
+        D = S.cfg['DIM']
+        out = []
+        bcm = S.v(BC_MEMBER[cls])
+        bcp = S.v([k for k in S.ns if k.startswith('boundary')and not k.endswith('_')][0])
+        for f in bcm.fields:
+            out.append(('stores_%s' % f, conj([bcm.fields[f].at(d, 0).eq(bcp.fields[f].at(d, 0)) for d in range(D)])))
+        for j, p in enumerate(same_contents_mat(S, S.v('spatial_points_'), S.v('spatial_points'), D)):
+            out.append(('stores_waypoints_%d' % j, p))
+        return out
+
+    class UpdateByDurations(Contract):
+        key = cls + '.update'
+        nparams = 4
+
+        def spec(self, S):
+            ts = S.v('time_segments')
+            P = S.v('spatial_points')
+            S.requires((ts.size() >= 1) & (ts.size() <= NMAX) & P.R.eq(ts.size() + 1), 'sizes')
+            S.requires(S.forall(0, ts.size(), lambda i: ts.at(i) > 0), 'positive_durations')
+            S.assume_nonzero_divisors_in('Inverse2x2', 'Inverse3x3')
+            S.terms(0, ts.size() - 1, ts.size(), S.sk(0) - 1, S.sk(0) + 1)
+            S.assigns(S.v('time_segments_'), S.v('spatial_points_'), S.v(BC_MEMBER[cls]), S.v('start_time_'), *spline_state(S, cls))
+            S.ensures(S.start_time_.eq(S.start_time), 'stores_start_time')
+            for j, p in enumerate(same_contents_vec(S, S.v('time_segments_'), ts)):
+                S.ensures(p, 'stores_durations_%d' % j)
+            for label, p in inputs_stored(S, False):
+                S.ensures(p, label)
+            for label, p in published(S, cls):
+                S.ensures(p, label)
+
+    class UpdateByTimePoints(Contract):
+        key = cls + '.update'
+        nparams = 3
+
+        def spec(self, S):
+            tp = S.v('t_points')
+            P = S.v('spatial_points')
+            seg = S.v('time_segments_')
+            cum = S.v('cumulative_times_')
+            S.requires((tp.size() >= 2) & (tp.size() <= NMAX) & P.R.eq(tp.size()), 'sizes')
+            S.requires(S.forall(0, tp.size() - 1, lambda i: tp.at(i) < tp.at(i + 1)), 'increasing_time_points')
+            S.assume_nonzero_divisors_in('Inverse2x2', 'Inverse3x3')
+            S.terms(0, tp.size() - 2, tp.size() - 1, S.sk(0) - 1, S.sk(0) + 1)
+            S.assigns(S.v('time_segments_'), S.v('spatial_points_'), S.v(BC_MEMBER[cls]), S.v('start_time_'), *spline_state(S, cls))
+            S.ensures(S.start_time_.eq(tp.at(0)), 'start_time_is_first_time_point')
+            S.ensures(seg.size().eq(tp.size() - 1), 'one_duration_per_interval')
+            S.ensures(S.forall(0, tp.size() - 1, lambda i: seg.at(i).eq(tp.at(i + 1) - tp.at(i))), 'durations_are_differences')
+            S.ensures(S.forall(0, tp.size(), lambda k: cum.at(k).eq(tp.at(k))), 'knot_times_are_the_time_points')
+            for label, p in inputs_stored(S, True):
+                S.ensures(p, label)
+            for label, p in published(S, cls):
+                S.ensures(p, label)
+            if S.mode == 'verify':
+                S.ghost('exit', lambda G: G.induction(0, tp.size(), lambda k: cum.at(k).eq(tp.at(k)), 'knot_times_telescope'))
+
+    UpdateByDurations.__name__ = cls + 'UpdateByDurations'
+    UpdateByTimePoints.__name__ = cls + 'UpdateByTimePoints'
+    register(UpdateByDurations)
+    register(UpdateByTimePoints)
+
+
+for _c in ORDER_OF:
+    make_assembly_contracts(_c)
